@@ -88,7 +88,7 @@ def random_population(rng, max_devices=8):
         lnames[0] = gnames[0]
     pool = ['Top', 'Middle', 'Bottom', 'Chair Side', 'Table', 'Lamp', 'Strip',
             'Candle', 'Tube 2', 'lamp', 'Balcony', 'a.b', "it's", 'Zz top',
-            'Desk #1', '_under']
+            'Desk #1', '_under', 'Küche', 'Ωmega 3']
     labels = rng.sample(pool, n)
     descs = []
     for lb in labels:
